@@ -421,7 +421,9 @@ func tryFamilies() []family {
 	return []family{
 		{name: "exprnd", cfg: gcfg{Names: ab, MaxW: w, MaxItems: 0, Let2: true, Dotimes: true, Macrolet: true, FunArg: true, Styles: 1}},
 		{name: "topnd", cfg: gcfg{Names: ab, MaxW: w, MaxItems: 3, Styles: 4, GSet: true, Macros: true, Redefine: true}},
-		{name: "top2", cfg: gcfg{Names: ab, MaxW: w, MaxItems: 2, Styles: 4, GSet: true, Macros: true, Redefine: true}},
+		{name: "top2", cfg: gcfg{Names: ab, MaxW: w, MaxItems: 3, Styles: 1, Redefine: true}},
+		{name: "top3", cfg: gcfg{Names: ab, MaxW: w, MaxItems: 3, Styles: 1, GSet: true, Macros: true, Redefine: true}},
+		{name: "top4", cfg: gcfg{Names: ab, MaxW: w, MaxItems: 3, Styles: 4, Redefine: true, FixParam: true}},
 		{name: "pkg1", cfg: gcfg{Names: ab, MaxW: w + 2, MaxItems: 6, HoleMaxW: 1, FinalMaxW: 2, Styles: 1, Packages: true, Files: true, Macros: true, FixParam: true, DefNames: 1}},
 		{name: "pkg1b", cfg: gcfg{Names: ab, MaxW: w + 3, MaxItems: 6, HoleMaxW: 1, FinalMaxW: 2, Styles: 1, Packages: true, Files: true, Macros: true, FixParam: true, DefNames: 1}},
 	}
